@@ -1427,3 +1427,7 @@ mod tests {
   //   child.join().unwrap();
   // }
 }
+
+#[cfg(rustdds_verif)]
+#[path = "/verif/harness/incrate/access/dp_event_loop.rs"]
+mod verif_access;
